@@ -41,9 +41,15 @@ def run_property(prop, tier, seed, obs, info, workers=None, solver_timeout_ms=No
 
     res = H.run_obligations(obs, seed=seed, workers=workers, solver_timeout_ms=solver_timeout_ms)
     obmap = {o.name: o for o in obs}
+    try:
+        os.makedirs(os.path.join(VERIF, ".cache"), exist_ok=True)
+        with open(os.path.join(VERIF, ".cache", "last-%s-%s.json" % (prop, tier)), "w") as f:
+            json.dump(res, f, indent=1, default=str)
+    except Exception:
+        pass
 
     # ---- canary twins: perturb one oracle value; the obligation must then FAIL
-    canary_obs = [o for o in obs if o.canary and not res[o.name]["error"]]
+    canary_obs = [o for o in obs if o.canary and not res[o.name]["error"] and not res[o.name]["violations"]]
     if canary_count is not None:
         import random
         rnd = random.Random(seed)
